@@ -146,6 +146,27 @@ def check_history(h):
         if np.all(np.isfinite(l2)) and (float(np.max(np.abs(l2.astype(LD) - r2n))) > tol or abs(float(z2) - float(r2z)) > tol):
             bad.append(("second-request-wrong", f"after a request at beta={h['beta']!r}, the request at beta={b2!r} on the same history is off by "
                         f"{float(np.max(np.abs(l2.astype(LD) - r2n))):.3g} / logz by {abs(float(z2) - float(r2z)):.3g}"))
+    # a manager rebuilt from a dictionary whose per-iteration scalars come as numpy arrays (e.g. taken from results()): queries are
+    # read-only - the stored evidences and temperatures are what they were, and every repetition of a query gives the same answer
+    T = h["T"]
+    if T >= 2 and len(bad) == 0:
+        from tempest.state_manager import StateManager
+        dd = sm.to_dict()
+        for kq in ("beta", "logz"):
+            dd["_history"][kq] = np.array([float(v_) for v_ in dd["_history"][kq]], dtype=float)
+        sm_arr = StateManager.from_dict(dd) if T % 2 else StateManager(1)
+        if not T % 2:
+            sm_arr.update_from_dict(dd)
+        keep_z = np.array(sm_arr.get_history("logz"), dtype=float).copy()
+        with np.errstate(all="ignore"):
+            ans = [sm_arr.compute_logw_and_logz(h["beta"]) for _ in range(3)]
+            ansu = [sm_arr.compute_logw_and_logz(h["beta"], normalize=False) for _ in range(2)]
+        if not np.array_equal(np.array(sm_arr.get_history("logz"), dtype=float), keep_z):
+            bad.append(("query-mutates-history", "compute_logw_and_logz changed the stored per-iteration evidences of a manager rebuilt from a dictionary with array-valued containers"))
+        elif any(not np.array_equal(a_[0], ans[0][0], equal_nan=True) or a_[1] != ans[0][1] for a_ in ans[1:]) or not np.array_equal(ansu[0][0], ansu[1][0], equal_nan=True):
+            bad.append(("second-request-wrong", "repeating one request on a manager rebuilt from a dictionary with array-valued containers gives different answers"))
+        elif np.all(np.isfinite(lw)) and float(np.max(np.abs(ans[0][0] - lw))) > tol:
+            bad.append(("formula-logw-norm", "a manager rebuilt from a dictionary with array-valued containers answers differently from the original manager"))
     # results the caller still holds must not change when the manager answers later requests (output buffers are the caller's)
     held = (lw.copy(), lw, lwu.copy(), lwu)
     with np.errstate(all="ignore"):
